@@ -120,6 +120,33 @@ def judge(case, acc, ctx):
                                         "--dfu-max-caches", st.get("caches_spelling", "{}").format(n)], d)
                     if not ok:
                         raised = RuntimeError(f"CLI exit {r.returncode}: {r.stderr[-200:]}")
+                elif route == "buildpy":
+                    # the build system's entry point: ncs/build.py update, with the images' configuration files named by --core (their
+                    # content does not speak about this command's explicit options)
+                    import subprocess
+                    import sys
+
+                    for nm, txt in (("app.config", f'CONFIG_SUIT_ENVELOPE_TARGET="application"\nCONFIG_SUIT_CACHE_MAX_CACHES={8 if n != 8 else 2}\nCONFIG_SUIT_DFU_CANDIDATE_PROCESSING_MINIMAL=y\n'),
+                                    ("rad.config", 'CONFIG_SUIT_ENVELOPE_TARGET="radio"\n# CONFIG_SUIT_CACHE_MAX_CACHES is not set\n')):
+                        with open(os.path.join(d, nm), "w") as fh:
+                            fh.write(txt)
+                    env = dict(os.environ, PYTHONPATH=boot.REPO + os.pathsep + os.environ.get("PYTHONPATH", ""))
+                    r = subprocess.run([sys.executable, boot.ncs_path("build.py"), "update", "--core", "application,,,app.config", "--core", "radio,,,rad.config",
+                                        "--zephyr-base", os.path.join(d, "no-zephyr"), "--input-file", inp, "--storage-output-file", sf, "--dfu-partition-output-file", pf,
+                                        "--update-candidate-info-address", hex(ia), "--dfu-partition-address", hex(pa), "--dfu-max-caches", str(n)],
+                                       cwd=d, env=env, capture_output=True, text=True, timeout=300)
+                    if r.returncode != 0:
+                        raised = RuntimeError(f"ncs/build.py update exit {r.returncode}: {r.stderr[-200:]}")
+                elif route == "api-relative":
+                    # a caller that works inside its build directory: relative names, resolved where the process is NOW
+                    from suit_generator.cmd_image import ImageCreator
+
+                    old_cwd = os.getcwd()
+                    os.chdir(d)
+                    try:
+                        ImageCreator.create_files_for_update(os.path.relpath(inp, d), os.path.relpath(sf, d), os.path.relpath(pf, d), ia, pa, n)
+                    finally:
+                        os.chdir(old_cwd)
                 elif route == "api":
                     from suit_generator.cmd_image import ImageCreator
 
@@ -182,6 +209,14 @@ def run_shard(ctx, spec):
     acc = Acc()
     route = spec["route"]
     if route == "cli":
+        for j, n_ in enumerate([6, 0, 16, 8, 6, 3]):
+            case = {"steps": [{"size": 50 + j, "salt": j, "fill": "rand", "path": "plain", "paddr": 0x0E100000 + 32 * j, "iaddr": 0x0E1EF340, "caches": n_}], "route": "buildpy" if j < 4 else "api-relative",
+                    "reuse_outputs": True}
+            try:
+                judge(case, acc, ctx)
+            except Violation as v:
+                if not any(f["bucket"] == v.bucket for f in acc.failures):
+                    acc.fail("update", case, v.observed, v.expected, bucket=v.bucket)
         # numbers as scripts print them: zero-padded decimal cache counts (%02d), decimal and upper-case hex addresses
         for j, (n, fmt) in enumerate([(0, "{:02d}"), (3, "{:03d}"), (8, "{:02d}"), (9, "{:02d}"), (16, "{:03d}"), (6, "{}"), (7, "+{}")]):
             case = {"steps": [{"size": 40 + j, "salt": j, "fill": "rand", "path": "plain", "paddr": 0x0E100000 + 16 * j, "iaddr": 0x0E1EF340, "caches": n, "caches_spelling": fmt},
@@ -211,6 +246,6 @@ def replay(ctx, check, case):
 
 def finalize(ctx, m, ev):
     c = m["counters"]
-    for n in ["size:0", "size:65536", "size:65537", "caches:0", "caches:16", "crossing-64k", "addr-zero", "top-of-memory", "route:cli", "route:api", "step:2", "fill:ff", "fill:ff-runs", "fill:ff-tail", "fill:zero", "fill:envelope+trailer", "fill:two-envelopes", "path:dotdot-after-symlink", "path:symlink-to-file", "path:pattern-characters"]:
+    for n in ["size:0", "size:65536", "size:65537", "caches:0", "caches:16", "crossing-64k", "addr-zero", "top-of-memory", "route:cli", "route:api", "step:2", "fill:ff", "fill:ff-runs", "fill:ff-tail", "fill:zero", "fill:envelope+trailer", "fill:two-envelopes", "path:dotdot-after-symlink", "path:symlink-to-file", "path:pattern-characters", "route:buildpy", "route:api-relative"]:
         if not c.get(n):
             raise boot.HarnessError(f"interesting class {n} is empty")
